@@ -343,13 +343,37 @@ def time_sink(cfg, art, node, arg, cond, where, rep):
     pl = "+".join(sorted(_gen(p) for p in places(arg)))
     if node["m"] == "write_utctime":
         # precondition: UTC year in 1950..2050 and zero nanoseconds
-        ats = [a for a in F.atoms(cond) if a[0] == "inrange" and a[2] == 1950 and ((a[3] == 2050 and not a[4]) or (a[3] == 2049 and a[4]))]
+        # the call must be dominated by a test implying 1950 <= UTC year < 2050: find the integer quantity tested,
+        # require it to be the year of the UTC-normalised value, and evaluate the path condition for every year
+        ats = []
         on_utc = False
-        for a in ats:
-            (yv,) = art.I.atom_vals.get(a, (None,))
-            implied = not F.counterexamples(cond, ("atom", a), "implies")
-            if yv is not None and any(c.endswith("OffsetDateTime::to_offset") for c in calls_of(yv)) and implied:
-                on_utc = True
+        year_atoms = {}
+        for a in F.atoms(cond):
+            if a[0] in ("inrange", "cmp"):
+                for x in art.I.atom_vals.get(a, ()):
+                    if x is not None and any(c.endswith("OffsetDateTime::year") for c in calls_of(x)) and any(c.endswith("OffsetDateTime::to_offset") for c in calls_of(x)):
+                        year_atoms[a] = core(x).r()
+        if year_atoms and len(set(year_atoms.values())) == 1:
+            var = next(iter(year_atoms.values()))
+            others = [a for a in F.atoms(cond) if a not in year_atoms]
+            ok_all = True
+            import itertools
+            for bits in itertools.product([False, True], repeat=min(len(others), 6)):
+                base = dict(zip(others, bits))
+                for y in list(range(1900, 2100)) + [-5, 0, 9999, 10000]:
+                    asg = dict(base)
+                    for a in year_atoms:
+                        asg[a] = F.int_semantics(("atom", a), var, y)
+                    if None in asg.values():
+                        ok_all = False
+                        break
+                    if F.evalf(cond, asg) and not (1950 <= y < 2050):
+                        ok_all = False
+                        break
+                if not ok_all:
+                    break
+            ats = list(year_atoms)
+            on_utc = ok_all
         stripped = "dt_strip_nanos" in calls_of(arg)
         rep.ob("C10.sinks", "UTCTime::from_datetime|%s" % where, bool(ats) and on_utc and stripped,
                "UTCTime::from_datetime asserts UTC year 1950..=2049 and zero nanoseconds: the call must be dominated by that very test on the UTC-normalised value and receive the truncated value",
